@@ -186,6 +186,13 @@ func (ph *ptraceHandle) handle(pid int, wstatus unix.WaitStatus) (status runner.
 			ph.traced[pid] = true
 			// Ptrace set option valid if the tracee is stopped
 			if err := setPtraceOption(pid); err != nil {
+				if err == unix.ESRCH {
+					// the tracee was killed after it stopped (e.g. by exit_group of its
+					// thread group or by SIGKILL): not a runner failure, its end is
+					// reported by a later wait4
+					delete(ph.traced, pid)
+					return
+				}
 				status = runner.StatusRunnerError
 				errStr = err.Error()
 				return
@@ -261,6 +268,10 @@ func (ph *ptraceHandle) handleTrap(pid int) error {
 	if ph.Handler != nil {
 		ctx, err := getTrapContext(pid)
 		if err != nil {
+			if err == unix.ESRCH {
+				// tracee vanished between its stop and this request: nothing to decide
+				return nil
+			}
 			return err
 		}
 		act := ph.Handler.Handle(ctx)
@@ -269,7 +280,10 @@ func (ph *ptraceHandle) handleTrap(pid int) error {
 		case TraceBan:
 			// Set the syscallno to -1 and return value into register to skip syscall.
 			// https://www.kernel.org/doc/Documentation/prctl/pkg/seccomp_filter.txt
-			return ctx.skipSyscall()
+			if err := ctx.skipSyscall(); err != nil && err != unix.ESRCH {
+				return err
+			}
+			return nil
 
 		case TraceKill:
 			return runner.StatusDisallowedSyscall
